@@ -27,7 +27,7 @@ pub fn check(deep: bool, pairs: &mut usize, skipped: &mut usize, fails: &mut Vec
         (fol::Variable { name: "Z".into(), sort: fol::Sort::General }, &gen_terms),
     ];
     let mut formulas: Vec<(String, fol::Formula)> = Vec::new();
-    for t in corpus(deep) { if let Ok(f) = fol::Formula::from_str(&t) { if exactly_evaluable(&f) { formulas.push((t, f)); } } }
+    for t in corpus(deep) { if let Ok(f) = fol::Formula::from_str(&t) { if crate::simp::quantified_variables(&f) <= 12 && exactly_evaluable(&f) { formulas.push((t, f)); } } }
     // formulas in which a quantifier binds a name that also occurs in some substituted term
     for t in ["exists Z (Z = X and p(Z))", "forall Y (q(Y) -> q(X, Y))", "exists N$i (N$i = X and p(N$i))", "exists X (p(X) and q(X, Y))", "exists Z (p(Z) and exists Z1 (Z1 = X and q(Z, Z1)))", "forall M$i (p(M$i) -> q(N$i, M$i))",
               "exists I$i (I$i = N$i + 1 and p(I$i))", "exists Y (p(Y) and Y = X) and q(Y)", "p(X) and exists X (q(X) and q(X, Y))", "exists X$i (p(X$i) and q(X, X$i))", "exists N (p(N) and q(N, N$i))", "forall W (q(W, X) -> exists X (p(X) and q(X, W)))"] {
